@@ -248,6 +248,15 @@ func checkInsertion(c *Check, fn *ssa.Function, s ssa.CallInstruction, getter, c
 			return
 		}
 		base, tail := a.Call.Args[0], a.Call.Args[1]
+		// form C (tried first: its filler may be the new node itself):
+		// g = append(old, x); copy(g[i+1:], g[i:]); g[i] = new
+		if isOld(base) {
+			if i, ok := growShiftSet(fn, a, isNew); ok {
+				idxV = i
+				oldV = base
+				return
+			}
+		}
 		// form B: append(old, new)
 		if isOld(base) {
 			if appendsOnly(tail, isNew) {
@@ -1040,7 +1049,11 @@ func growShiftSet(fn *ssa.Function, g *ssa.Call, isNew VM) (ssa.Value, bool) {
 		}
 		dst, dok := strip(ci.Common().Args[0]).(*ssa.Slice)
 		src, sok := strip(ci.Common().Args[1]).(*ssa.Slice)
-		if !dok || !sok || strip(dst.X) != ssa.Value(g) || strip(src.X) != ssa.Value(g) || dst.High != nil || src.High != nil || dst.Low == nil || src.Low == nil {
+		if !dok || !sok || strip(dst.X) != ssa.Value(g) || strip(src.X) != ssa.Value(g) || dst.High != nil || dst.Low == nil || src.Low == nil {
+			return
+		}
+		// the source may stop at the old length: g[i:n] with n = len(old)
+		if src.High != nil && !vLen(vIs(g.Call.Args[0]))(src.High) {
 			return
 		}
 		if strip(src.Low) == strip(idx) && linOf(dst.Low).equal(linOf(idx).plus(lin{k: 1}, 1)) {
